@@ -64,6 +64,11 @@ type draWorldSpec struct {
 	preCtr       map[string]int64 // "driver/pool/counterSet/counter" -> consumed before the pass
 	// roomOnNode: the existing node keeps room for the batch (its node-local devices are then reachable)
 	roomOnNode bool
+	// lateSharer: a HISTORY instead of a state — after the deviceallocation controller has seen the held claim reserved
+	// for the holder pod, a second pod on another (full, healthy) node starts sharing the claim (reservedFor grows, the
+	// allocation is unchanged) and the controller reconciles the claim again; then the first holder's node is marked for
+	// deletion. The device is still in use by the second pod.
+	lateSharer bool
 	// nodeSlices: in-cluster slices pinned to the existing node with spec.nodeName (built once the node exists)
 	nodeSlices func(node *corev1.Node) []*resourcev1.ResourceSlice
 }
@@ -131,6 +136,12 @@ func draWorlds() []draWorldSpec {
 				return []*resourcev1.ResourceClaim{test.AllocatedClusterWideClaim("held", "cw", test.GPUDriver, "cw-0", test.PodConsumer(c))}
 			},
 			devs: with(map[string]draDev{gpuKey("cw", "cw-0"): excl, gpuKey("cw", "cw-1"): excl}), preExclusive: map[string]bool{gpuKey("cw", "cw-0"): true}},
+		{name: "cluster-wide pool of 1 held by a claim that a pod on a deleting node and, later, a pod on a healthy node share {plain}", types: []draType{plain}, lateSharer: true,
+			slices: []*resourcev1.ResourceSlice{test.ClusterWideSlice("cw", test.GPUDriver, "cw-0")},
+			allocated: func(c *corev1.Pod) []*resourcev1.ResourceClaim {
+				return []*resourcev1.ResourceClaim{test.AllocatedClusterWideClaim("held", "cw", test.GPUDriver, "cw-0", test.PodConsumer(c))}
+			},
+			devs: map[string]draDev{gpuKey("cw", "cw-0"): excl}, preExclusive: map[string]bool{gpuKey("cw", "cw-0"): true}},
 		{name: "shared in-cluster device 40Gi with 20Gi held by a running pod + capacity template {cap,plain}", types: []draType{capT, plain},
 			slices: []*resourcev1.ResourceSlice{test.SharedCapacitySlice("shared", test.GPUDriver, "shared-0", "40Gi")},
 			allocated: func(c *corev1.Pod) []*resourcev1.ResourceClaim {
@@ -329,6 +340,28 @@ func buildDRA(ws draWorldSpec, c draCase) *draEnv {
 	for i := range cl.Items {
 		_, _ = w.DeviceAlloc.Reconcile(w.Ctx, reconcile.Request{NamespacedName: client.ObjectKeyFromObject(&cl.Items[i])})
 	}
+	if ws.lateSharer {
+		var plainSpec world.ITSpec
+		for _, t := range ws.types {
+			if t.spec.Name == "plain" {
+				plainSpec = t.spec
+			}
+		}
+		_, n1 := w.BuildNode(world.NodeSpec{Name: "n1", Pool: "default", Type: plainSpec, Offer: plainSpec.Offers[0]})
+		sharer := world.Pod("holder-b", 3500, world.Bound(n1.Name))
+		sharer.UID = types.UID("uid-holder-b")
+		sharer.Spec.ResourceClaims = append(sharer.Spec.ResourceClaims, test.PodResourceClaimReference("dev", "held"))
+		w.Add(sharer)
+		held := &resourcev1.ResourceClaim{}
+		must(w.Raw.Get(w.Ctx, clientKey("default", "held"), held))
+		held.Status.ReservedFor = append(held.Status.ReservedFor, test.PodConsumer(sharer))
+		w.EnvUpdate(held)
+		w.SyncCluster()
+		_, _ = w.DeviceAlloc.Reconcile(w.Ctx, reconcile.Request{NamespacedName: clientKey("default", "held")})
+		if n0 := w.GetNode("n0"); n0 != nil {
+			w.Cluster.MarkForDeletion(n0.Spec.ProviderID)
+		}
+	}
 	return env
 }
 
@@ -425,7 +458,7 @@ func (env *draEnv) judgeDRA(out schedOutcome) (viol []c01Violation, allocated in
 					mem[ident] += q
 				default:
 					users[ident] = append(users[ident], user)
-					if !a.DeviceID.Template && env.spec.preExclusive[key] {
+					if !a.DeviceID.Template && env.spec.preExclusive[key] && ck.Name != "held" { // (the holding claim itself may move with its pod)
 						add("dra: exclusive device assigned twice", fmt.Sprintf("claim %s is given %s, which a running pod's claim already holds", ck.Name, key))
 					}
 				}
